@@ -176,4 +176,136 @@ theorem allChains_lookup (t : List Atom) (a : ContactArgs) (hall : a.allchains =
   intro z
   rw [mem_getD_icAfterLoop_all hall hX]
   simp [Spec.Contact.contactAtomsAll, sortDistinct_eq]
+/-! ### the all-chains pair map -/
+
+theorem selOf_value_ne_nil {a : ContactArgs} {t : List Atom} {A B : Str} {e : Nat × List Nat} (he : e ∈ selOf a t (A, B)) :
+    e.2 ≠ [] := by
+  obtain ⟨p, hp, ⟨q, hq, hpq⟩, rfl⟩ := mem_selOf.mp he
+  intro h
+  have : q.2 ∈ partners (params a) t B p := mem_partners.mpr ⟨q, hq, hpq, rfl⟩
+  have h' : partners (params a) t B p = [] := h
+  rw [h'] at this
+  simp at this
+
+theorem selOf_value_nodup {a : ContactArgs} {t : List Atom} {A B : Str} {e : Nat × List Nat} (he : e ∈ selOf a t (A, B)) :
+    e.2.Nodup := by
+  obtain ⟨p, hp, _, rfl⟩ := mem_selOf.mp he
+  exact nodup_partners _ _ _ _
+
+theorem selOf_keys_nodup (a : ContactArgs) (t : List Atom) (A B : Str) : ((selOf a t (A, B)).map (·.1)).Nodup := by
+  rw [selOf_keys]
+  exact asc_nodup strictTotal_ltNat (asc_contactAtoms _ _ _ _)
+
+/-- events of two different chain pairs with the same key have disjoint partner lists; so have two events of one pair -/
+theorem events_pairwise (a : ContactArgs) (t : List Atom) :
+    ((combinations2 (getChains t)).flatMap (selOf a t)).Pairwise
+      (fun e1 e2 => e1.1 = e2.1 → ∀ z, z ∈ e1.2 → z ∉ e2.2) := by
+  rw [List.pairwise_flatMap]
+  constructor
+  · rintro ⟨A, B⟩ _
+    have := selOf_keys_nodup a t A B
+    rw [List.Nodup, List.pairwise_map] at this
+    exact this.imp (by intro e1 e2 h h'; exact absurd h' h)
+  · have hn : (combinations2 (getChains t)).Nodup := nodup_combinations2 (asc_nodup strictTotal_ltStr (asc_getChains t))
+    refine List.Pairwise.imp ?_ hn
+    rintro ⟨A, B⟩ ⟨A', B'⟩ hne x hx y hy hk z hz1 hz2
+    obtain ⟨p, hp, _, rfl⟩ := mem_selOf.mp hx
+    obtain ⟨p', hp', _, rfl⟩ := mem_selOf.mp hy
+    have hpp : p = p' := pos_inj (chainAtoms_sub hp) (chainAtoms_sub hp') hk
+    subst hpp
+    obtain ⟨q, hq, _, rfl⟩ := mem_partners.mp hz1
+    obtain ⟨q', hq', _, hqq⟩ := mem_partners.mp hz2
+    have : q' = q := pos_inj (chainAtoms_sub hq') (chainAtoms_sub hq) hqq
+    subst this
+    have hA : A = A' := by rw [← (mem_chainAtoms.mp hp).2, ← (mem_chainAtoms.mp hp').2]
+    have hB : B = B' := by rw [← (mem_chainAtoms.mp hq).2, ← (mem_chainAtoms.mp hq').2]
+    exact hne (by rw [hA, hB])
+
+theorem nodup_eventsOf_all (a : ContactArgs) (t : List Atom) (i : Nat) :
+    (eventsOf ((combinations2 (getChains t)).flatMap (selOf a t)) i).Nodup := by
+  unfold eventsOf
+  rw [List.Nodup, List.pairwise_flatMap]
+  constructor
+  · intro e he
+    obtain ⟨he, _⟩ := List.mem_filter.mp he
+    obtain ⟨⟨A, B⟩, _, he⟩ := List.mem_flatMap.mp he
+    exact selOf_value_nodup he
+  · have := (events_pairwise a t).sublist (List.filter_sublist (p := fun e => decide (e.1 = i)))
+    refine List.Pairwise.imp_of_mem ?_ this
+    intro e1 e2 h1 h2 h x hx y hy hxy
+    have k1 := (List.mem_filter.mp h1).2
+    have k2 := (List.mem_filter.mp h2).2
+    simp only [decide_eq_true_eq] at k1 k2
+    subst hxy
+    exact h (k1.trans k2.symm) x hx hy
+
+/-- the all-chains pair map contains every contacting pair of two different chains exactly once, under the atom whose chain
+    comes first -/
+theorem pairsAfterLoop_all (t : List Atom) (a : ContactArgs) (hall : a.allchains = true) :
+    Spec.Contact.IsAllChainsPairMap (params a) t (pairsAfterLoop t a) := by
+  have hkn : (pairsAfterLoop t a).keys.Nodup := nodup_keys_applyEvents (by simp [Dict.keys]) _
+  have hval : ∀ e ∈ pairsAfterLoop t a, e.2 = eventsOf ((combinations2 (getChains t)).flatMap (selOf a t)) e.1 := by
+    intro e he
+    have := getD_of_mem hkn (k := e.1) (v := e.2) he
+    rw [← this]
+    unfold pairsAfterLoop
+    rw [getD_applyEvents, callChains_all hall]
+    simp [Dict.getD]
+  have hkey : ∀ i, i ∈ (pairsAfterLoop t a).keys ↔ ∃ e ∈ (combinations2 (getChains t)).flatMap (selOf a t), e.1 = i := by
+    intro i
+    unfold pairsAfterLoop
+    rw [mem_keys_applyEvents, callChains_all hall]
+    simp [Dict.keys]
+  refine ⟨hkn, ?_, ?_, ?_⟩
+  · intro e he
+    rw [hval e he]
+    exact nodup_eventsOf_all a t e.1
+  · intro e he h0
+    have hk : e.1 ∈ (pairsAfterLoop t a).keys := List.mem_map.mpr ⟨e, he, rfl⟩
+    obtain ⟨ev, hev, hk'⟩ := (hkey e.1).mp hk
+    obtain ⟨⟨A, B⟩, _, hev'⟩ := List.mem_flatMap.mp hev
+    have hne := selOf_value_ne_nil hev'
+    obtain ⟨z, hz⟩ := List.exists_mem_of_ne_nil _ hne
+    have : z ∈ e.2 := by
+      rw [hval e he]
+      exact mem_eventsOf.mpr ⟨ev, hev, hk', hz⟩
+    rw [h0] at this
+    simp at this
+  · intro i j
+    have step1 : (∃ js, (i, js) ∈ pairsAfterLoop t a ∧ j ∈ js) ↔ j ∈ eventsOf ((combinations2 (getChains t)).flatMap (selOf a t)) i := by
+      constructor
+      · rintro ⟨js, hm, hj⟩
+        have := hval (i, js) hm
+        simp only at this
+        rw [← this]; exact hj
+      · intro hj
+        obtain ⟨ev, hev, hk', _⟩ := mem_eventsOf.mp hj
+        have hk : i ∈ (pairsAfterLoop t a).keys := (hkey i).mpr ⟨ev, hev, hk'⟩
+        have hm := mem_of_mem_keys hk
+        refine ⟨_, hm, ?_⟩
+        have := hval _ hm
+        simp only at this
+        rw [this]; exact hj
+    rw [step1, mem_eventsOf]
+    simp only [List.mem_flatMap]
+    constructor
+    · rintro ⟨ev, ⟨⟨A, B⟩, hcc, hev⟩, rfl, hj⟩
+      obtain ⟨hA, hB, hlt⟩ := mem_combos.mp hcc
+      obtain ⟨p, hp, _, rfl⟩ := mem_selOf.mp hev
+      obtain ⟨q, hq, hpq, rfl⟩ := mem_partners.mp hj
+      refine ⟨p.1, q.1, List.mem_zipIdx_iff_getElem?.mp (chainAtoms_sub hp), List.mem_zipIdx_iff_getElem?.mp (chainAtoms_sub hq), ?_⟩
+      simp only [Spec.Contact.contactFirst, strLt_eq, (mem_chainAtoms.mp hp).2, (mem_chainAtoms.mp hq).2, hlt, Bool.true_and]
+      exact hpq
+    · rintro ⟨x, y, hx, hy, hc⟩
+      simp only [Spec.Contact.contactFirst, strLt_eq, Bool.and_eq_true] at hc
+      have hpz : (x, i) ∈ t.zipIdx := List.mem_zipIdx_iff_getElem?.mpr hx
+      have hqz : (y, j) ∈ t.zipIdx := List.mem_zipIdx_iff_getElem?.mpr hy
+      have hp : (x, i) ∈ chainAtoms t x.chainID := mem_chainAtoms.mpr ⟨hpz, rfl⟩
+      have hq : (y, j) ∈ chainAtoms t y.chainID := mem_chainAtoms.mpr ⟨hqz, rfl⟩
+      have hcc : (x.chainID, y.chainID) ∈ combinations2 (getChains t) :=
+        mem_combos.mpr ⟨chain_mem_getChains hpz, chain_mem_getChains hqz, hc.1⟩
+      refine ⟨(i, partners (params a) t y.chainID (x, i)), ⟨(x.chainID, y.chainID), hcc, ?_⟩, rfl, ?_⟩
+      · exact mem_selOf.mpr ⟨(x, i), hp, ⟨(y, j), hq, hc.2⟩, rfl⟩
+      · exact mem_partners.mpr ⟨(y, j), hq, hc.2, rfl⟩
+
 end Proofs.Contacts
